@@ -262,6 +262,7 @@ def ldl_parts(val):
 DEFECTS = {
     "tmat.sum_tmat":           "TransMat +/- TransMat of non-square operands (transmat.h: TransMat(r,c) swaps its arguments)",
     "tvec.mul_matbase":        "TransVec * MatBase generic overload loops to A.cols() instead of A.rows() (transvec.h)",
+    "tmat.mul_tmat":           "TransMat * TransMat with a non-square right operand strides by B.cols() instead of B.rows() (transmat.h)",
     "vec.mul_tmat":            "Vec * TransMat reads outside its operands / returns A*b of the wrong dimension (transmat.h)",
     "sym.mul_sym":             "SymMat * SymMat returns a SymMat: the product of non-commuting matrices is not symmetric",
     "band.eigenval_band0":     "BandMat::eigenVal with band width 0 reads past the storage (bandmat.h)",
@@ -286,6 +287,8 @@ def arith_tag(op, a, b):
     if op in ("mul", "mulb"):
         if a.kind == "tvec" and b.ismat() and (op == "mulb" or b.kind != "mat") and a.r == b.r and b.r != b.c:
             return "tvec.mul_matbase"
+        if op == "mul" and a.kind == "tmat" and b.kind == "tmat" and a.c == b.r and b.r != b.c:
+            return "tmat.mul_tmat"
         if op == "mul" and a.kind == "vec" and b.kind == "tmat" and a.r == b.r:
             return "vec.mul_tmat"
         if op == "mul" and a.kind == "sym" and b.kind == "sym" and a.r == b.r:
